@@ -1,19 +1,30 @@
-// c19: runs history scripts (generic instantiations interleaved with typed member writes and
-// reads) on the real interpreter, in-process, one fresh VM per history.
-// stdin: one JSON case per line {"src": "<script text, plain .zy mode>"}
-// stdout: one JSON observation per line {"out": "<captured stdout>", "outcome": "ok|throw|parse|panic|control"}
-// The script itself prints one marker per operation (see checks/C19.py); the harness adds nothing.
+// c19: runs history scripts (generic instantiations interleaved with typed member writes, reads, calls of
+// methods with typed parameters, constructor calls) on the real interpreter, in-process.
+//
+//	c19            stdin: one JSON case per line {"src": "<script text, plain .zy mode>"}; one fresh VM per case
+//	               stdout: one JSON observation per line {"out": "<captured stdout>", "outcome": "ok|throw|parse|panic|control"}
+//	c19 conc       the same cases (scripts that `spawn` several histories on ONE VM and collect what each history
+//	               observed through a Channel), run in a child process (`c19 child`) so that data-race reports of a
+//	               -race build can be collected from its stderr: after the observations one more line
+//	               {"races": {"<first origami frame> | <first origami frame>": n}, "exit": code}
+//
+// The scripts print one marker per operation (see checks/C19.py); the harness adds nothing.
 package main
 
 import (
+	"bytes"
 	"encoding/json"
 	"os"
+	"os/exec"
+	"strings"
+	"time"
 
 	"verif/harness/vrun"
 )
 
 type Case struct {
-	Src string `json:"src"`
+	Src   string `json:"src"`
+	Spawn bool   `json:"spawn,omitempty"`
 }
 
 type Obs struct {
@@ -22,7 +33,7 @@ type Obs struct {
 	Detail  string `json:"detail,omitempty"`
 }
 
-func main() {
+func serve() {
 	enc := json.NewEncoder(os.Stdout)
 	vrun.Lines(func(line string) {
 		var c Case
@@ -30,7 +41,73 @@ func main() {
 			enc.Encode(Obs{Outcome: "badcase", Detail: err.Error()})
 			return
 		}
-		r := vrun.RunString(c.Src, "c19.zy")
+		var r vrun.Result
+		if c.Spawn {
+			r = vrun.RunStringSpawn(c.Src, "c19.zy", nil)
+		} else {
+			r = vrun.RunString(c.Src, "c19.zy")
+		}
 		enc.Encode(Obs{Out: r.Out, Outcome: r.Outcome, Detail: r.Detail})
 	})
+}
+
+func conc() {
+	self, _ := os.Executable()
+	cmd := exec.Command(self, "child")
+	cmd.Stdin = os.Stdin
+	var se bytes.Buffer
+	cmd.Stdout, cmd.Stderr = os.Stdout, &se
+	cmd.Env = append(os.Environ(), "GORACE=halt_on_error=0")
+	timer := time.AfterFunc(600*time.Second, func() { cmd.Process.Kill() })
+	err := cmd.Run()
+	timer.Stop()
+	exit := 0
+	if err != nil {
+		exit = -1
+		if ee, ok := err.(*exec.ExitError); ok {
+			exit = ee.ExitCode()
+		}
+	}
+	stderr := se.String()
+	pairs := map[string]int{}
+	if strings.Contains(stderr, "WARNING: DATA RACE") {
+		for _, blk := range strings.Split(stderr, "WARNING: DATA RACE")[1:] {
+			var tops []string
+			for _, part := range strings.Split(blk, "\n\n") {
+				head := strings.TrimSpace(part)
+				if !(strings.HasPrefix(head, "Write at") || strings.HasPrefix(head, "Read at") ||
+					strings.HasPrefix(head, "Previous write at") || strings.HasPrefix(head, "Previous read at")) {
+					continue
+				}
+				for _, l := range strings.Split(part, "\n") {
+					l = strings.TrimSpace(l)
+					if strings.HasPrefix(l, "github.com/php-any/origami/") {
+						tops = append(tops, strings.TrimSuffix(strings.TrimPrefix(l, "github.com/php-any/origami/"), "()"))
+						break
+					}
+				}
+			}
+			if len(tops) == 2 && tops[0] > tops[1] {
+				tops[0], tops[1] = tops[1], tops[0]
+			}
+			pairs[strings.Join(tops, " | ")]++
+		}
+	}
+	o := map[string]any{"races": pairs, "exit": exit}
+	if strings.Contains(stderr, "fatal error:") {
+		f := stderr[strings.Index(stderr, "fatal error:"):]
+		if len(f) > 200 {
+			f = f[:200]
+		}
+		o["fatal"] = f
+	}
+	json.NewEncoder(os.Stdout).Encode(o)
+}
+
+func main() {
+	if len(os.Args) > 1 && os.Args[1] == "conc" {
+		conc()
+		return
+	}
+	serve()
 }
